@@ -74,6 +74,28 @@ def evalEmptiedWindow (ins outs : List String) (storeOk : String → Nat → Nat
   | _, some s, _, _, _, _, _, _, _, _, _, _, _ => .prop "c07_state_finished" s!"emptiedwindow start={s}"
   | _, _, _, _, _, _, _, _, _, _, _, _, _ => .bad "emptiedwindow fields"
 
+/-- `Add(12)` split by the loop's `Remove(11)` (hooks ranges.add.read / sync.removed), then head 13 between the loop's next
+    Get and Remove: every accepted head ends up in the Store -/
+def evalAddRace (outs : List String) (storeOk : String → Nat → Nat → Option String) : Verdict :=
+  match kv? outs "start", kv? outs "missed", kv? outs "verdicts", kvNat? outs "newest", kvNat? outs "head", kvNat? outs "target", kv? outs "pending",
+        kvNat? outs "err", kvNat? outs "finished", kv? outs "stored", kvNat? outs "tail" with
+  | some "ok", some missed, some verdicts, some newest, some head, some target, some pending, some err, some fin, some stored, some tail =>
+    match storeOk stored head tail with
+    | some c => .prop c "addrace"
+    | none =>
+      if missed != "-" then .bad s!"addrace: the schedule was not reached ({missed})" else
+      if verdicts != "accept,accept,accept,accept,accept" then .prop "c03_valid_gossip_accepted" verdicts else
+      -- the same interleaving on the model of the pending set (theorems c07_add_racing_remove_*)
+      let rs0 : Ranges := [⟨10, [10, 11]⟩]
+      let rs1 := addApply true (removeFirst rs0 11) (addRead rs0 12) 12
+      let left := heights (removeFirst (add rs1 13) 11)
+      if left != [12, 13] then .bad s!"addrace: the model keeps {left}" else
+      if head != newest then .prop "c07_heads_during_sync_are_synced" s!"head={head} newest accepted head={newest} pending={pending}" else
+      if target != newest || pending != "-" then .prop "c19_subjective_head_is_newest" s!"target={target} pending={pending}" else
+      if err != 0 || fin != 1 then .prop "c07_state_finished" s!"err={err} finished={fin}" else .ok "addrace"
+  | some s, _, _, _, _, _, _, _, _, _, _ => .prop "c07_state_finished" s!"addrace start={s}"
+  | _, _, _, _, _, _, _, _, _, _, _ => .bad "addrace fields"
+
 /-- caller A of Head() is stopped between its store-head check and `pending.Add(a)`; B learns b > a, the loop syncs; A goes
     on; C asks again: what C gets is not below what B got, and the model's subjective head agrees -/
 def evalStalePending (ins outs : List String) : Verdict :=
